@@ -22,4 +22,8 @@ C15_NoSilentAccept == IsDec => ((Ev.parseall = "ok" => WF) /\ (Ev.tostring = "ok
 C15_AcceptsValid == IsDec /\ WF => Ev.parseall = "ok" /\ Ev.tostring = "ok"
 \* the VM refuses to start on a malformed first instruction (NOOP is not executable: named deviation)
 C15_RunRejects   == IsDec /\ Ev.run \notin {"panic", "skipped", "flagrange"} /\ (~DecInstr(Ev.bytes).ok \/ DecInstr(Ev.bytes).v.op = NOOP) => Ev.run = "err"
+\* ... and never reports success having stood before a malformed instruction: every pending buffer the run loop was about
+\* to decode (logged at each instruction boundary, with the code fetched by earlier instructions) starts with a
+\* well-formed executable instruction, or the run ended in an error
+C15_RunDecodes == IsDec /\ Ev.run = "ok" => \A i \in DOMAIN Ev.tops : Ev.tops[i] = <<>> \/ (DecInstr(Ev.tops[i]).ok /\ DecInstr(Ev.tops[i]).v.op # NOOP)
 =============================================================================
